@@ -28,8 +28,9 @@ GEOS = [
     dict(G0, shapes=[[3], [2, 3]], block=2, ptype="INPUT", merge=True, merge_limit=2),
     dict(G0, shapes=[[], [3]]),                                    # rank 0 (no statistics, still grafted)
     dict(G0, shapes=[[2, 1, 3, 1]], merge=True, merge_limit=3),    # rank 4 with unit dims
+    dict(G0, shapes=[[4, 3], [5]], memred=True),                   # int8-quantized momentum buffers
 ]
-TOL = {"update": 2e-3, "stats": 1e-5, "roots": 1e-3}
+TOL = {"update": 2e-3, "update_memred": 3e-2, "stats": 1e-5, "roots": 1e-3}
 
 
 def replay(ck, beh, label, geos=GEOS):
